@@ -34,6 +34,9 @@ var (
 		rules.E("lib/j5schema", "SchemaSetFromFiles"),
 		rules.E("lib/j5reflect", "Reflector.NewRoot"),
 		rules.E("lib/j5reflect", "Reflector.NewObject"),
+		// "the codec can encode and decode … every reflected type": the codec entry points
+		rules.E("internal/codec", "Codec.JSONToProto"),
+		rules.E("internal/codec", "Codec.ProtoToJSON"),
 	}
 	entriesC05 = []rules.Entry{
 		rules.E("internal/j5s/protoprint", "PrintFile"),
